@@ -109,7 +109,24 @@ class CallMixin:
         ext = [q for q in self.repo.mro(obj.cls) if q not in self.repo.classes]
         if ext and attr not in self.instance_attrs(obj.cls):
             return Sym("extattr", obj.label, attr)
+        if not [q for q in ext if q != "builtins.object"] and attr not in self.instance_attrs(obj.cls) and \
+                self.repo.lookup_attr(obj.cls, "__getattr__") is None and self.repo.lookup_attr(obj.cls, "__slots__") is None \
+                and not attr.startswith("__") and not self._class_level_annotation(obj.cls, attr):
+            # every class of the object is in the repository and none defines or assigns the attribute
+            self.event("attr_missing_obj", cls=obj.cls, attr=attr)
+            self.may_raise("builtins.AttributeError", f"{obj.label}.{attr}", definite=True)
+            raise _Raise(self.make_exc("builtins.AttributeError"), self.cur_where)
         return Sym("cfg", obj.label, attr)
+
+    def _class_level_annotation(self, cls: str, attr: str) -> bool:
+        for q in self.repo.mro(cls):
+            ci = self.repo.classes.get(q)
+            if ci is None:
+                continue
+            for st in ci.node.body:
+                if isinstance(st, ast.AnnAssign) and isinstance(st.target, ast.Name) and st.target.id == attr:
+                    return True
+        return False
 
     def instance_attrs(self, cls: str) -> set:
         cache = self.__dict__.setdefault("_inst_attrs", {})
